@@ -923,7 +923,8 @@ def run(tier):
                      "every overflow/division Assert is discharged; explicit panics, unwrap/expect and other may-panic std calls are violations unless proved dead; "
                      "calls leaving the layer must be in the confirmed boundary table; the command loop exits on end of input, on a read error and on Quit, "
                      "never blocks on anything but the read, and logs-and-continues on both error paths. Decides: no input line (for all token sequences) panics "
-                     "or wedges the main thread within this layer. Does not decide: panics inside the board layer for syntactically valid but chess-illegal FENs (assumed valid by the statement), stdout failures."),
+                     "or wedges the main thread within this layer; the counters make_move steps are at least 16 bits wide (the premise under which `+ 1` on them was accepted); the FEN alphabet the loader "
+                     "accepts is the whole valid one (C07 tables). Does not decide: panics inside the board layer for syntactically valid but chess-illegal FENs (assumed valid by the statement), stdout failures."),
         assumptions=["FEN arguments are valid FEN (statement)", "slice lengths are <= isize::MAX", "println!/eprintln! do not fail (stdout/stderr stay open)",
                      "std functions outside the may-panic list do not panic for any argument value (list in rules/c15.py)"],
         tier=tier, thorough_hook=clippy_cross_reference)
